@@ -97,7 +97,7 @@ def tstep (s : TSt) : Ev → Except String TSt
       | none => .error "env: append to a partition that is not registered in an ongoing transaction"
       | some e' =>
         if !s.inTx then .error "client: transactional data written outside a transaction"
-        else if r ∉ s.mine then .error "client: record of another transaction written into this one"
+        else if r ∉ s.mine then .error "client: a record that no accepted send() of the running transaction produced was written"
         else if r ∈ s.app then .error "client: record appended twice"
         else if s.fate.isSome then .error "client: transactional data written after the EndTxn of the transaction"
         else .ok { s with toCore := { s.toCore with env := e', cur := r :: s.cur }, app := r :: s.app }
